@@ -128,9 +128,10 @@ __gmp_doprnt_mpf (const struct doprnt_funs_t *funs,
          printf ("  len %d\n", len));
 
   /* For fixed mode check the ndigits formed above was in fact enough for
-     the integer part plus p->prec after the radix point. */
+     the integer part plus p->prec after the radix point (0 asks for all
+     significant digits, which always is). */
   ASSERT ((p->conv == DOPRNT_CONV_FIXED && p->prec > -1)
-          ? ndigits >= MAX (1, exp + p->prec + 2) : 1);
+          ? (ndigits == 0 || ndigits >= MAX (1, exp + p->prec + 2)) : 1);
 
   sign = p->sign;
   if (s[0] == '-')
